@@ -51,6 +51,8 @@ def check_selection_dispatch(prog, run, rid="K1", floor=3):
 
 
 def check(prog, run):
+    from . import c08 as _c08k
+    _c08k.check_non_null_after_completion(prog, run, "K8")   # = C08.R14: the null is matched by an error under both executors
     # ---- K1 selection-kind exhaustiveness (whole package)
     check_selection_dispatch(prog, run, "K1")
 
